@@ -36,7 +36,7 @@ func init() {
 	contextFunctions[symbols.NT_StepWithAxisAndNodeTest] = leftRightDependentResult
 	contextFunctions[symbols.NT_StepWithAxisAndNodeTestAndPredicate] = leftRightDependentResult
 	contextFunctions[symbols.NT_StepWithPredicateWithAnotherPredicate] = leftRightDependentResult
-	contextFunctions[symbols.NT_FilterExprWithPredicate] = leftRightDependentResult
+	contextFunctions[symbols.NT_FilterExprWithPredicate] = execFilterExprWithPredicate
 	contextFunctions[symbols.NT_AxisName] = execAxisName
 	contextFunctions[symbols.NT_AbbreviatedStepParent] = execAbbreviatedStepParent
 	contextFunctions[symbols.NT_AbbreviatedAxisSpecifier] = execAbbreviatedAxisSpecifier
@@ -181,6 +181,31 @@ func execPredicate(context *exprContext, expr *grammar.Grammar) error {
 
 	context.result = nextResult
 	return nil
+}
+
+// A predicate on a filter expression, such as (E)[2] or $v[last()], numbers
+// the nodes in document order, whatever order the node-set was produced in.
+func execFilterExprWithPredicate(context *exprContext, expr *grammar.Grammar) error {
+	children := make([]*bsr.BSR, 0, 2)
+
+	for _, cn := range expr.BSR.GetAllNTChildren() {
+		for _, c := range cn {
+			children = append(children, &c)
+		}
+	}
+
+	if err := execContext(context, expr.Next(children[0])); err != nil {
+		return err
+	}
+
+	if nodeSet, ok := context.result.(NodeSet); ok {
+		// Sort a copy: the node-set may belong to the caller (a variable).
+		sorted := make(NodeSet, len(nodeSet))
+		copy(sorted, nodeSet)
+		context.result = cleanupForwardAxis(sorted)
+	}
+
+	return execContext(context, expr.Next(children[1]))
 }
 
 func execNodeTestNodeTypeNoArgTest(context *exprContext, expr *grammar.Grammar) error {
